@@ -31,6 +31,10 @@ def handler(st, opts):
         x = rand_tt(tt, N, cfg["r"], gen, dt, cfg["data"] == "decay")
         ref = (dense_op(A) @ project.dense(x.cores).reshape(-1)).reshape(M)
         g = rand_tt(tt, M, 2, gen, dt) if cfg["guess"] != "none" else None
+        kw = {}
+        if cfg["guess"] in ("exact1", "exact2"):       # the exact product as the guess and a sweep budget of 1 / 2 (final-sweep branch)
+            g = tt.TT(ref.clone(), eps=1e-14)
+            kw = {"nswp": int(cfg["guess"][-1])}
         objs, names = [A, x] + ([g] if g is not None else []), ["A", "x"] + (["initial"] if g is not None else [])
         outs = {}
         for be in ("py", "cpp"):
@@ -38,7 +42,7 @@ def handler(st, opts):
             snap = algrun.snapshot(objs)
             stats["calls"] += 1
             try:
-                Y = A.fast_matvec(x, eps=eps, initial=g, use_cpp=(be == "cpp"))
+                Y = A.fast_matvec(x, eps=eps, initial=g, use_cpp=(be == "cpp"), **kw)
             except Exception as ex:  # noqa
                 problems.append(mk_problem("C17", "exception", cfg, "backend %s raised %s: %s" % (be, type(ex).__name__, str(ex)[:200]), st, {"which": be}))
                 continue
